@@ -532,14 +532,19 @@ def apply_oracle(ctx, name, inp):
         res = [('no_exception', False, 'a result', repr(e)[:300])]
     fn = FUNCTION[name] or ('odak.learn.tools.save_image/load_image' if inp.get('api') == 'torch' else 'odak.tools.save_image/load_image')
     bad = 0
-    seen = ctx.extra.setdefault('_reported', {})
     for clause, ok, exp, obs in res:
         if not ok:
             bad += 1
-            seen[(fn, clause)] = seen.get((fn, clause), 0) + 1
-            if seen[(fn, clause)] <= 2:                  # the report keeps one replay per (function, clause)
-                ctx.violation(fn, clause, dict(inp, oracle=name), exp, obs)
+            report(ctx, fn, clause, dict(inp, oracle=name), exp, obs)
     return bad, res
+
+
+def report(ctx, fn, clause, inp, exp, obs):
+    """the verdict keeps one replay per (function, clause): hand over the first two failing inputs of each"""
+    seen = ctx.extra.setdefault('_reported', {})
+    seen[(fn, clause)] = seen.get((fn, clause), 0) + 1
+    if seen[(fn, clause)] <= 2:
+        ctx.violation(fn, clause, inp, exp, obs)
 
 
 # ---------------------------------------------------------------- generators
@@ -1091,7 +1096,7 @@ def run(ctx):
         n_or += 1
         ctx.case('dictionary/C-locale/%s' % ('non-ascii' if has_non_ascii(d) else 'ascii'), json.dumps(d, sort_keys=True))
         if not r['ok']:
-            ctx.violation(FUNCTION['dictionary_locale'], 'values_identical_in_non_utf8_locale', {'d': d, 'env': C_LOCALE, 'oracle': 'dictionary_locale'}, 'the dictionary', r['obs'])
+            report(ctx, FUNCTION['dictionary_locale'], 'values_identical_in_non_utf8_locale', {'d': d, 'env': C_LOCALE, 'oracle': 'dictionary_locale'}, 'the dictionary', r['obs'])
     for k in range(120 if not ctx.thorough else 1200):
         ls = gen_lines(rng, k)
         inp = {'lines': ls}
